@@ -72,7 +72,7 @@ func (ex *Exec) callWith(f *frame, st *State, instr ssa.Instruction, cc *ssa.Cal
 	if cc.IsInvoke() {
 		recv := f.val(cc.Value)
 		key := "iface:" + typeStr(cc.Value.Type()) + "." + cc.Method.Name()
-		if f.sweepOn() {
+		if f.sweepOn() && ex.mayBeNil(f, cc.Value) {
 			ex.oblige(f, st, "nilderef", ex.V.srcText(cc.Value, pos)+"."+cc.Method.Name(), "", pos, not(eq(recv, Term{"VNil", SVal})), "method call on possibly nil interface value")
 		}
 		if c := ex.V.contracts[key]; c != nil {
@@ -135,7 +135,11 @@ func (ex *Exec) callWith(f *frame, st *State, instr ssa.Instruction, cc *ssa.Cal
 	}
 	// havoc inferred write set
 	ex.havocSet(st, ex.V.modSet(callee))
-	ex.setResult(f, res, ex.freshResults(f, st, sig, hint))
+	rs := ex.freshResults(f, st, sig, hint)
+	ex.setResult(f, res, rs)
+	if !isRulio(callee) {
+		ex.errConvention(st, sig, rs)
+	}
 	if isRulio(callee) {
 		ex.note("uncontracted callee " + name + " (havoc of inferred write set, result unconstrained)")
 	}
@@ -663,4 +667,27 @@ func (ex *Exec) intrinsic(f *frame, st *State, callee *ssa.Function, cc *ssa.Cal
 		return true
 	}
 	return false
+}
+
+// errConvention: for dependency (non-rulio) functions returning (..., error): when the error is nil the
+// pointer / map / interface results are non-nil (assumed contract of dependencies; listed in evidence).
+func (ex *Exec) errConvention(st *State, sig *types.Signature, rs []Term) {
+	n := sig.Results().Len()
+	if n < 2 {
+		return
+	}
+	last := sig.Results().At(n - 1).Type()
+	if typeStr(last) != "error" {
+		return
+	}
+	errNil := eq(rs[n-1], Term{"VNil", SVal})
+	for i := 0; i < n-1; i++ {
+		t := sig.Results().At(i).Type()
+		switch t.Underlying().(type) {
+		case *types.Pointer, *types.Map:
+			ex.assume(st, implies(errNil, not(eq(rs[i], intLit(0)))))
+		case *types.Interface:
+			ex.assume(st, implies(errNil, not(eq(rs[i], Term{"VNil", SVal}))))
+		}
+	}
 }
